@@ -137,6 +137,100 @@ def check_exactly_once_interfaces(ctx):
     return res
 
 
+def check_transform_and_live_handle(ctx):
+    """C02: (a) a process_record that returns None / falsy values is a value
+    like any other: one output per example; (b) one dataset handle that is
+    iterated, written to and iterated again sees everything written, also
+    when the dataset records no checksums."""
+    import asyncio
+    from sedpack.io import Dataset
+    tier = ctx["tier"]
+    bad = None
+    n_eval = 0
+    with C.tmpdir() as tmp:
+        d = C.mk_dataset(tmp / "tr", "fb", "", eps=2)
+        ids = list(range(9))
+        C.fill(d, ids, "train")
+        d = Dataset(tmp / "tr")
+
+        def pr(e):
+            i = C.ex_id(e)
+            return None if i % 2 == 0 else (0 if i % 3 == 0 else i)
+        want = collections.Counter(repr(None if i % 2 == 0 else
+                                        (0 if i % 3 == 0 else i)) for i in ids)
+        for iface in ("numpy", "concurrent", "async", "rust"):
+            for shuffle in (0, 1, 3, 50):
+                for fp in ((1,) if iface == "numpy" else (1, 3)):
+                    n_eval += 1
+                    kw = dict(split="train", process_record=pr, repeat=False,
+                              shuffle=shuffle)
+                    if iface != "numpy":
+                        kw["file_parallelism"] = fp
+                    try:
+                        if iface == "numpy":
+                            got = list(d.as_numpy_iterator(**kw))
+                        elif iface == "concurrent":
+                            got = list(d.as_numpy_iterator_concurrent(**kw))
+                        elif iface == "rust":
+                            got = list(d.as_numpy_iterator_rust(**kw))
+                        else:
+                            async def go():
+                                return [x async for x in
+                                        d.as_numpy_iterator_async(**kw)]
+                            got = asyncio.run(go())
+                    except Exception as e:  # noqa: BLE001
+                        bad = dict(what="process_record returning None / 0",
+                                   interface=iface, shuffle=shuffle, fp=fp,
+                                   error=repr(e)[:200])
+                        break
+                    if collections.Counter(map(repr, got)) != want:
+                        bad = dict(what="process_record returning None / 0: "
+                                   "outputs are not one per example",
+                                   interface=iface, shuffle=shuffle, fp=fp,
+                                   got=[repr(x) for x in got], expected=len(ids))
+                        break
+                if bad:
+                    break
+            if bad:
+                break
+        # (b) live handle
+        if not bad:
+            for hashes in ((), ("sha256",)):
+                for iface in _ifaces("fb", tier):
+                    n_eval += 1
+                    root = tmp / f"live_{len(hashes)}_{iface}"
+                    h = C.mk_dataset(root, "fb", "", eps=2, hashes=hashes)
+                    C.fill(h, range(0, 5), "train")
+                    try:
+                        first = C.iterate(h, iface, "train")
+                        C.fill(h, range(5, 9), "train")
+                        C.fill(h, range(9, 11), "train", rel="sub")
+                        second = C.iterate(h, iface, "train")
+                    except Exception as e:  # noqa: BLE001
+                        bad = dict(what="iterate / write / iterate on one "
+                                   "handle", interface=iface,
+                                   hash_algorithms=list(hashes),
+                                   error=repr(e)[:200])
+                        break
+                    if sorted(first) != list(range(5)) or \
+                            sorted(second) != list(range(11)):
+                        bad = dict(what="iterate / write / iterate on one "
+                                   "handle: the second pass does not see "
+                                   "everything written", interface=iface,
+                                   hash_algorithms=list(hashes),
+                                   first=sorted(first), second=sorted(second))
+                        break
+                if bad:
+                    break
+    return [C.result(
+        "a transformation returning None / 0 gives one output per example "
+        "(every interface, shuffle below / above the size); one handle "
+        "iterated, written to and iterated again sees all examples (with and "
+        "without recorded checksums)", bad is None,
+        function="as_numpy_iterator", evaluations=n_eval, witness=bad,
+        bound="9 examples; shuffle in {0,1,3,50}; hash tuples (), (sha256)")]
+
+
 def check_order(ctx):
     """C03: shuffle=0 => reference sequence, same on every pass / reopen."""
     from sedpack.io import Dataset
